@@ -50,7 +50,14 @@ func main() {
 	report.Main("C09", "model_checking", report.Workers(), func(r *report.Run, shard, nshards int) { run(r, shard, nshards, *replay) })
 }
 
-var capLog = world.NewCapLogger("panic")
+var capLog = world.NewCapLogger(needles()...)
+
+func needles() []string {
+	if os.Getenv("ISO_DEBUG") != "" {
+		return []string{"panic", "attest", "error"}
+	}
+	return []string{"panic"}
+}
 
 // blocksWithRecovered counts, for the last execution, the blocks in which module
 // code recovered (and only logged) a panic during begin/end-block processing.
@@ -107,6 +114,7 @@ func run(r *report.Run, shard, nshards int, replayFile string) {
 	r.Assumptions = []string{
 		"deviation bound 1: one field of one message type is hostile per execution (all transactions of that type in the first block where it occurs, or all occurrences)",
 		"only message types occurring in the scripted history are mutated; the version gate of CheckChainVersion is not in the alphabet",
+		"part B (isolation): 8 kinds of unprocessable evidence x {one validator, all validators} x 5 placements (older/younger message of the same queue, other queue) next to a healthy message holding quorum evidence; the healthy message must be attested by the same end-block as without the poison",
 		"a panic that module code recovers and logs (skyway end-blocker, listed by the property as a protective mechanism) is a violation only when it recurs in >= 3 different blocks (the module's remaining end-block work is then skipped persistently); one-off recovered panics are listed in the evidence as transient",
 	}
 	if replayFile != "" {
@@ -122,6 +130,10 @@ func run(r *report.Run, shard, nshards int, replayFile string) {
 			fmt.Fprintln(os.Stderr, err)
 			os.Exit(2)
 		}
+		if m, ok := v.Replay.(map[string]interface{}); ok && m["isolation"] != nil {
+			isolation(r) // the isolation product is small: re-run it completely
+			return
+		}
 		var d dev
 		bb, _ := json.Marshal(v.Replay)
 		_ = json.Unmarshal(bb, &d)
@@ -130,6 +142,9 @@ func run(r *report.Run, shard, nshards int, replayFile string) {
 		r.States, r.Transitions = int64(blocks), int64(blocks)
 		r.Sample(d)
 		return
+	}
+	if shard == nshards-1 {
+		isolation(r)
 	}
 	// baseline: collect leaves, must itself be clean
 	leaves := map[leaf]bool{}
